@@ -127,6 +127,14 @@ def reduce_case(kind, cached, R, D):
         if err > TOL:
             fails.append(failure(PROPERTY, f"product:{kind}", "product() is not the product of all components",
                                  expected=exp.tolist(), got=got.tolist(), deviation=float(err), params=dict(R=R, D=D)))
+        # the result is an object of its own: changing it in place (normalize) leaves the operand as it was
+        if kind in ("measure", "pdf") and m.regs.get(p) is not None and m.regs[p] is not None:
+            if m.regs[p] is m.regs[f]:
+                fails.append(failure(PROPERTY, f"product:{kind}:aliasing", "product() returned its operand itself (a later in-place change of the result changes the operand)", params=dict(R=R, D=D)))
+            m.query("normalize", p)
+            ok, why = same_snapshot(before, snapshot(m, [f]))
+            if not ok:
+                fails.append(failure(PROPERTY, f"product:{kind}:aliasing", "normalising the RESULT of product() in place changed the operand: " + why, params=dict(R=R, D=D)))
         return fails
     return Case(label, fn)
 
@@ -149,6 +157,8 @@ def cases(seed, tier):
                 for uf in (False, True):
                     out.append(product_case(kind, "hadamard", uf, bool((si + a + b + uf) % 2), a, b, D, si))
             out.append(reduce_case(kind, bool(si % 2), max(R1, R2), D))
+            if si == 0:
+                out.append(reduce_case(kind, True, 1, D))      # one component: the product is a copy, not the operand
     # de-duplicate labels
     seen, res = set(), []
     for c in out:
